@@ -135,8 +135,8 @@ class MultiCtl(BaseMultiCtl, Module):
             return
         for i, to_mod in enumerate(self.out_links):
             mapping = self.mappings.values[i]
-            if mapping.controller == 0:
-                continue  # No controller mapped for this link.
+            if to_mod < 0 or mapping.controller == 0:
+                continue  # Disconnected link slot, or no controller mapped for this link.
             mod = self.parent.modules[to_mod]
             ctl = list(mod.controllers.values())[mapping.controller - 1]
             vt = ctl.value_type
